@@ -32,7 +32,7 @@ ASSUMPTIONS = list(refcodec.TRUSTED_BASE) + [
     "CVAL truncation is not applied to MetaModules (the stored value of an unlisted user controller has no documented default)",
 ]
 REQUIRED_LABELS = {
-    "quick": ["encoded_project", "encoded_synth", "unknown_chunk", "dropped_optional", "truncated_cvals", "interior_gap", "old_version", "header_permuted", "fixture", "fixture_unknown", "fixture_dropped", "fixture_truncated", "nested_container_of_other_version_era"],
+    "quick": ["encoded_project", "encoded_synth", "unknown_chunk", "dropped_optional", "truncated_cvals", "interior_gap", "old_version", "header_permuted", "fixture", "fixture_unknown", "fixture_dropped", "fixture_truncated", "nested_container_of_other_version_era", "interpreter_optimized", "interpreter_warnings_are_errors"],
     "thorough": ["encoded_project", "encoded_synth", "unknown_chunk", "dropped_optional", "truncated_cvals", "interior_gap", "old_version", "header_permuted", "fixture", "fixture_unknown", "fixture_dropped", "fixture_truncated", "fixture_all_positions"],
 }
 UNKNOWN_ALPHABET = "QXZJ0123456789"
@@ -52,6 +52,12 @@ def plan(tier):
     if tier == "thorough":
         for i in range(8):
             descs.append({"kind": "fixture_positions", "files": fs[i::8]})
+    # the fixtures decoded by the library in freshly started interpreters (python -O / -OO / -W error / -X dev, C locale ...)
+    from vlib import subproc
+
+    names = [v for v in sorted(subproc.VARIANTS) if v != "plain"]
+    for i in range(3):
+        descs.append({"kind": "interpreters", "variants": names[i::3]})
     return descs
 
 
@@ -367,8 +373,53 @@ def run_fixture_edit(ctx, e, cache):
     return {"fixture_" + {"unknown": "unknown", "drop": "dropped", "truncate": "truncated", "permute": "permuted"}[e["kind"]]}
 
 
+def fixture_digests():
+    """{fixture: digest of what the library reports after loading it, and of what it writes back}"""
+    import hashlib
+    import json
+
+    from vlib.harness import jsonable
+
+    out = {}
+    for f in c05.fixture_files():
+        rel = os.path.relpath(f, os.path.join(REPO, "tests", "files"))
+        with open(f, "rb") as fh:
+            data = fh.read()
+        try:
+            obj = load(data)
+            out[rel] = hashlib.sha256(json.dumps(jsonable(snapshot.snap(obj)), sort_keys=True).encode()).hexdigest()[:16] + ":" + hashlib.sha256(obj.read()).hexdigest()[:16]
+        except Exception as e:  # noqa: BLE001
+            out[rel] = "raised " + type(e).__name__
+    return out
+
+
+def run_interpreters(ctx, desc):
+    """How the interpreter was started is not part of a file: every fixture decodes (and is written
+    back) the same in interpreters started with -O, -OO, -W error, -X dev, in the C locale, after
+    other first imports ... as in this process."""
+    from vlib import subproc
+
+    here = fixture_digests()
+    body = "from checks import c04\nimport logging\nlogging.disable(logging.CRITICAL)\nRESULT = c04.fixture_digests()\n"
+    for v in desc["variants"]:
+        res = subproc.run(v, body)
+        rec = {"op": "interpreter", "variant": v}
+        ctx.case(len(here))
+        if res.get("__failed__"):
+            ctx.check(False, "C04.interpreter.fails", "loading the fixtures in a fresh interpreter (%s) failed: rc=%r %s" % (v, res.get("returncode"), (res.get("stderr") or "")[-500:]), key="C04.interpreter:" + v, recipe=rec)
+            continue
+        bad = sorted(k for k in here if res.get(k) != here[k])
+        ctx.check(not bad, "C04.interpreter.decodes_differently", "in an interpreter started as %r %d fixture(s) load or re-save differently, e.g. %s: %r vs %r here" % (v, len(bad), bad[:1], res.get(bad[0]) if bad else None, here.get(bad[0]) if bad else None), key="C04.interpreter:" + v, recipe=rec)
+        ctx.label("interpreter_" + v)
+        ctx.mark_nontrivial(rec)
+        ctx.sample(rec)
+
+
 def run_shard(ctx, desc):
     k = desc["kind"]
+    if k == "interpreters":
+        run_interpreters(ctx, desc)
+        return
     if k == "encoded":
 
         def body(case):
@@ -440,6 +491,14 @@ def run_shard(ctx, desc):
 
 
 def replay(ctx, doc):
+    if doc["recipe"].get("op") == "interpreter":
+        from vlib.harness import Ctx
+
+        c2 = Ctx(ctx.prop, ctx.tier, ctx.seed, 0, 1, [])
+        run_interpreters(c2, {"variants": [doc["recipe"]["variant"]]})
+        if c2.failures:
+            raise PropertyViolation(c2.failures[0]["sub_oracle"], c2.failures[0]["detail"], c2.failures[0]["key"])
+        return
     r = doc["recipe"]
     if r.get("tag") == "encoded":
         run_encoded(ctx, r["case"])
